@@ -418,3 +418,46 @@ Qed.
 Theorem argmin_correct l : l <> [] -> o_argmin l = jax_argmin l.
 Proof. intro H. rewrite o_argmin_opp, jax_argmin_opp. apply argmax_correct. now destruct l. Qed.
 Local Close Scope Z_scope.
+
+(* ================================================================ cumsum: running sums with wraparound *)
+Local Open Scope Z_scope.
+(* ONNX CumSum (exclusive = 0, reverse = 0) in type sb: the running wrapped sum *)
+Fixpoint o_cumsum (sb : ity) (acc : Z) (l : list Z) : list Z :=
+  match l with [] => [] | x :: r => let a := o_add sb acc x in a :: o_cumsum sb a r end.
+(* JAX: position k holds the wrapped exact sum of the first k+1 elements (any association gives it: any_order_sum) *)
+Fixpoint jax_cumsum_from (sb : ity) (acc : Z) (l : list Z) : list Z :=
+  match l with [] => [] | x :: r => wrap sb (acc + x) :: jax_cumsum_from sb (acc + x) r end.
+Definition jax_cumsum (sb : ity) (l : list Z) : list Z := jax_cumsum_from sb 0 l.
+Lemma o_cumsum_wrap sb : 0 < snd sb -> forall l a, o_cumsum sb (wrap sb a) l = jax_cumsum_from sb a l.
+Proof.
+  intro Hb. induction l as [|x l IH]; intro a; simpl; [reflexivity|]. unfold o_add at 1 2. rewrite wrap_add_l by exact Hb.
+  f_equal. apply IH.
+Qed.
+Theorem cumsum_correct sb l : 0 < snd sb -> o_cumsum sb 0 l = jax_cumsum sb l.
+Proof.
+  intro Hb. unfold jax_cumsum. rewrite <- (o_cumsum_wrap sb Hb l 0). f_equal. symmetry. apply wrap_id; [exact Hb|].
+  destruct sb as [[|] b]; unfold in_int, int_lo, int_hi; simpl in *;
+    assert (0 < 2 ^ (b - 1)) by (apply Z.pow_pos_nonneg; lia); assert (0 < 2 ^ b) by (apply Z.pow_pos_nonneg; lia); lia.
+Qed.
+(* the lowering for 8- / 16-bit integers: Cast(int32) -> CumSum -> Cast back *)
+Definition I32' : ity := (true, 32).
+Definition lowered_cumsum_via32 (sb : ity) (l : list Z) : list Z := map (o_cast sb) (o_cumsum I32' 0 (map (o_cast I32') l)).
+Lemma cumsum_step_congr sb a a' x : 0 < snd sb <= 32 -> wrap sb a = wrap sb a' -> wrap sb (a + wrap I32' x) = wrap sb (a' + x).
+Proof.
+  intros Hb H. rewrite <- wrap_add_l, H, wrap_add_l by lia.
+  rewrite <- wrap_add_r, (wrap_narrow_gen sb I32'), wrap_add_r by (simpl; lia). reflexivity.
+Qed.
+Lemma cumsum_via32_from sb : 0 < snd sb <= 32 -> forall l a a', wrap sb a = wrap sb a' ->
+  map (wrap sb) (jax_cumsum_from I32' a (map (wrap I32') l)) = jax_cumsum_from sb a' l.
+Proof.
+  intros Hb. induction l as [|x l IH]; intros a a' H; cbn [map jax_cumsum_from]; [reflexivity|].
+  pose proof (cumsum_step_congr sb a a' x Hb H) as E. f_equal.
+  - rewrite (wrap_narrow_gen sb I32') by (simpl; lia). exact E.
+  - apply IH. exact E.
+Qed.
+Theorem cumsum_via32_correct sb l : 0 < snd sb <= 32 -> lowered_cumsum_via32 sb l = jax_cumsum sb l.
+Proof.
+  intro Hb. unfold lowered_cumsum_via32, o_cast. rewrite (cumsum_correct I32') by (simpl; lia). unfold jax_cumsum.
+  now apply cumsum_via32_from.
+Qed.
+Local Close Scope Z_scope.
